@@ -82,10 +82,10 @@ def namespace_job(tier, harness, N=4):
                bounds={"space": "S1", "blocks": N, "name_schemes": NAME_SCHEMES, "entry": "b0" if tier == "quick" else "any"}, budget_s=900)
 
 
-def s1_jobs(tier, harness, quick_n5_max_edges=None, with_routes=True):
+def s1_jobs(tier, harness, quick_n5_max_edges=None, with_routes=True, n5_routes=True):
     """The standard S1 job list.  harness(E, ctx, aux, desc)."""
     mk = s1_job_maker(harness)
-    js = _s1_jobs(tier, mk, quick_n5_max_edges, with_routes)
+    js = _s1_jobs(tier, mk, quick_n5_max_edges, with_routes, n5_routes)
     js.insert(2, namespace_job(tier, harness))
     return js
 
@@ -129,7 +129,7 @@ def s1_job_maker(harness):
     return mk
 
 
-def _s1_jobs(tier, mk, quick_n5_max_edges, with_routes):
+def _s1_jobs(tier, mk, quick_n5_max_edges, with_routes, n5_routes=True):
     jobs = [
         mk("S1-N3-all-entries", 3, None, exp=expected(3, None)),
         mk("S1-N4-all-entries", 4, None, exp=expected(4, None)),
@@ -141,7 +141,7 @@ def _s1_jobs(tier, mk, quick_n5_max_edges, with_routes):
     jobs.append(mk("S1-N4-all-entries-numeric-names", 4, None, exp=expected(4, None), prefix=""))
     # histories: the graph is written to a dictionary / YAML and read back between two stages
     RELOADS = ["reload@1", "reload@2", "yreload@2", "alias@2"]
-    BOTH = ["direct", "reload@2", "alias@2"] if with_routes else None
+    BOTH = ["direct", "reload@2", "alias@2"] if (with_routes and n5_routes) else None
     if os.environ.get("VERIF_PROBE"):
         jobs.append(mk("probe-counters", 5, 0, counters=[int(x) for x in os.environ["VERIF_PROBE"].split(",")]))
     if with_routes:
